@@ -136,7 +136,7 @@ fn run_word(c: &Case, steps: &[i64]) -> Result<(Vec<usize>, usize), (String, Str
             NamingK::Numbers | NamingK::Timestamps => "app_rCURRENT.log".to_string(),
             NamingK::CustomCur => format!("app_{}.log", lg::CUSTOM_CUR),
             NamingK::NumbersDirect => "app_r00000.log".to_string(),
-            NamingK::TimestampsDirect | NamingK::CustomDirect => format!("app_{}.log", infix_of(c, &created).unwrap()),
+            NamingK::TimestampsDirect | NamingK::CustomDirect | NamingK::CoarseDirect => format!("app_{}.log", infix_of(c, &created).unwrap()),
         };
         let content = format!("seeded{ending}");
         let p = env.dir.join(name);
